@@ -184,15 +184,18 @@ def harnesses(rep, cfg, modpath):
     H("ed_decompress", "vp_ed_decompress", b_decompress)
     return T
 
-def small_order_harness(rep, cfg, mp):
+def small_order_harness(rep, cfg, mp, which="small"):
     """is_small_order: the only test performed is whether [8]P is the identity, and its outcome is returned unchanged (layer G; both
     outcomes executed).  If the code inspects coordinates instead, the 16 points B + T, T (T in E[8]) are run natively against [8]P == O."""
     import time as _t
     from llsym import gsym, ir as _ir
     from llsym.lsym import PanicReached
     from vp.lharness import module
-    t0 = _t.time(); fn = "vp_ed_is_small_order"
-    rec = dict(harness="%s/EdwardsPoint::is_small_order tests [8]P == O" % cfg, config=cfg, function="EdwardsPoint::is_small_order", goals=[], bounds="symbolic point (any point, torsion included)")
+    from llsym import fconst as _fc
+    t0 = _t.time(); fn = "vp_ed_is_small_order" if which == "small" else "vp_ed_is_torsion_free"
+    mult = 8 if which == "small" else _fc.L; mname = "8" if which == "small" else "l"
+    meth = "is_small_order" if which == "small" else "is_torsion_free"
+    rec = dict(harness="%s/EdwardsPoint::%s tests [%s]P == O" % (cfg, meth, mname), config=cfg, function="EdwardsPoint::" + meth, goals=[], bounds="symbolic point (any point, torsion included)")
     status = "ok"
     try:
         for outcome in (1, 0):
@@ -204,22 +207,22 @@ def small_order_harness(rep, cfg, mp):
             P = it.point("P")
             r = it.P(it.call(fn, [P]))
             okv = r.is_const() and (r.cval() & 1) == outcome
-            okt = len(tested) == 1 and tested[0].eq(gsym.G.base("P").scale(8))
+            okt = len(tested) == 1 and tested[0].eq(gsym.G.base("P").scale(mult))
             rec["goals"].append(dict(goal="outcome %d of the identity test is returned unchanged" % outcome, verdict="unsat" if okv else "sat", solver_s=0.0, cases=1, solver_calls=0, kind="structural"))
-            rec["goals"].append(dict(goal="exactly one test, on [8]P against the identity (outcome %d)" % outcome, verdict="unsat" if okt else "sat", solver_s=0.0, cases=1, solver_calls=0, kind="polynomial identity mod p"))
-            if not (okv and okt): status = "violation"; rec["why"] = "small-order test is not 'is [8]P the identity': tested %s, returned %r" % ([str(t)[:80] for t in tested], r)
+            rec["goals"].append(dict(goal="exactly one test, on [%s]P against the identity (outcome %d)" % (mname, outcome), verdict="unsat" if okt else "sat", solver_s=0.0, cases=1, solver_calls=0, kind="polynomial identity mod p"))
+            if not (okv and okt): status = "violation"; rec["why"] = "%s is not 'is [%s]P the identity': tested %s, returned %r" % (meth, mname, [str(t)[:80] for t in tested], r)
     except _ir.Unsupported as e:
         status = "inconclusive"; rec["why"] = "unsupported IR: " + str(e)[:300]
     except PanicReached as e:
         status = "violation"; rec["why"] = "panic reached: " + str(e)[:200]
     if status != "ok":
-        ok, det = small_order_replay(cfg); rec["replay"] = det
-        if ok: status = "violation"; rec["reproduced"] = True; rec["why"] = "is_small_order disagrees with '[8]P == O' natively: " + str(det)[:300]
+        ok, det = small_order_replay(cfg, which); rec["replay"] = det
+        if ok: status = "violation"; rec["reproduced"] = True; rec["why"] = "%s disagrees with '[%s]P == O' natively: " % (meth, mname) + str(det)[:300]
         elif status == "violation": status = "inconclusive"; rec["why"] = "not reproduced natively: " + rec["why"][:200]
     rec["status"] = status; rec["wall_s"] = round(_t.time() - t0, 3)
     rep.add(**rec); rep.functions.add(rec["function"]); rep.configs.add(cfg)
 
-def small_order_replay(cfg):
+def small_order_replay(cfg, which="small"):
     from vp import native
     from checks.c04 import compress_py
     from llsym import fconst
@@ -237,14 +240,15 @@ def small_order_replay(cfg):
     for k in range(8):
         T = fconst.ed_mul(k, T8) if k else (0, 1)
         pts.append(("B+%dT" % k, fconst.ed_add(Bpt, T))); pts.append(("%dT" % k, T))
-    try: outs = native.run(cfg, [("ed_is_small_order_c", [compress_py(p)]) for _, p in pts])
+    entry = "ed_is_small_order_c" if which == "small" else "ed_is_torsion_free"
+    try: outs = native.run(cfg, [(entry, [compress_py(p)]) for _, p in pts])
     except Exception as e: return False, "native runner failed: " + str(e)[:200]
     for (lab, p), got in zip(pts, outs):
-        want = 1 if fconst.ed_mul(8, p) == (0, 1) else 0
+        want = 1 if fconst.ed_mul(8 if which == "small" else Lq, p) == (0, 1) else 0
         if isinstance(got, tuple): return True, dict(point=lab, native_result=str(got)[:120])
-        if got is None: return False, "native runner does not know ed_is_small_order_c"
+        if got is None: return False, "native runner does not know " + entry
         if got[0] != want: return True, dict(point=lab, compressed=compress_py(p).hex(), native_result=got[0], specification=want)
-    return False, "native results agree with [8]P == O on all 16 torsion-shifted points"
+    return False, "native results agree with [%s]P == O on all 16 torsion-shifted points" % ("8" if which == "small" else "l")
 
 def run(tier, seed):
     rep = Report("C03")
@@ -253,7 +257,9 @@ def run(tier, seed):
     build.ir_many([dict(config=c, flavour="O0") for c in cfgs])
     tasks = []
     for cfg in cfgs: tasks += harnesses(rep, cfg, build.ir(cfg, "O0"))
-    for cfg in cfgs[:1]: tasks.append(lambda cfg=cfg: small_order_harness(rep, cfg, build.ir(cfg, "O0")))
+    for cfg in cfgs[:1]:
+        tasks.append(lambda cfg=cfg: small_order_harness(rep, cfg, build.ir(cfg, "O0")))
+        tasks.append(lambda cfg=cfg: small_order_harness(rep, cfg, build.ir(cfg, "O0"), "torsion"))
     # the AVX2 copies of the point formulas (simd build): checks/c03v.py
     from checks import c03v
     tasks += c03v.harnesses(rep, build.ir("simd", "O0"))
